@@ -51,7 +51,7 @@ def check(run):
     def report(law, ell, err, inp, stratum):
         rel = err / ((ell + 1) * EPS)
         worst[law] = max(worst[law], rel)
-        if rel > K[law]:
+        if not (rel <= K[law]):   # NaN fails too
             run.violation(f"law-fails:{law}", "Wigner.D", {**inp, "ell": ell, "law": law}, f"<= {K[law]} (ell+1) eps", f"{rel} (ell+1) eps", detail={"stratum": stratum})
             return True
         return False
@@ -112,6 +112,33 @@ def check(run):
         for ell in range(L + 1):
             run.gap_case("homomorphism", (Ra, Rb, ell), f"{la}*{lb}" if ell == 0 else None)
             if report("homomorphism", ell, float(np.max(np.abs(A[ell] @ B[ell] - C[ell]))), {"R1": list(Ra), "R2": list(Rb)}, f"{la}*{lb}"):
+                break
+    # the largest blocks the property names (ell up to 128; thorough: 200) on a few rotors: every law, every entry
+    LB = 128 if quick else 200
+    wB = spherical.Wigner(LB)
+    bigR = [("identity", ident), ("generic", generic[0][1] if generic else (0.5, 0.5, 0.5, 0.5)), ("near-pole-1e-9", extra_np[0][1]), ("rational2", (0.6, 0.0, 0.8, 0.0))]
+    bigells = sorted(set([0, 1, 2, 49, 83, 84, 85, 86, 100, 127, LB] + [rng.randint(49, LB) for _ in range(4)]) & set(range(LB + 1))) if quick else list(range(0, LB + 1))
+    BD = {lab: blocks(wB, wB.D(quaternionic.array(R))) for lab, R in bigR}
+    for lab, R in bigR:
+        Bi = blocks(wB, wB.D(quaternionic.array((R[0], -R[1], -R[2], -R[3]))))
+        Bn = blocks(wB, wB.D(quaternionic.array(tuple(-x for x in R))))
+        for ell in bigells:
+            n = 2 * ell + 1
+            B = BD[lab][ell]
+            run.gap_case("large-ell-laws", (lab, ell), f"large|{lab}")
+            inp = {"R": list(R), "ell_max": LB}
+            sgn = (-1.0) ** (np.add.outer(np.arange(-ell, ell + 1), np.arange(-ell, ell + 1)) % 2)
+            if (lab == "identity" and report("identity", ell, float(np.max(np.abs(B - np.eye(n)))), inp, lab)) or \
+               report("unitary", ell, float(np.max(np.abs(B @ B.conj().T - np.eye(n)))), inp, lab) or \
+               report("inverse-dagger", ell, float(np.max(np.abs(Bi[ell] - B.conj().T))), inp, lab) or \
+               report("negation", ell, float(np.max(np.abs(Bn[ell] - B))), inp, lab) or \
+               report("conj-symmetry", ell, float(np.max(np.abs(B - sgn * np.conj(B[::-1, ::-1])))), inp, lab):
+                break
+    for (la, Ra), (lb, Rb) in [(bigR[1], bigR[3]), (bigR[2], bigR[1])]:
+        C = blocks(wB, wB.D(quaternionic.array(qmul(Ra, Rb))))
+        for ell in bigells:
+            run.gap_case("large-ell-laws", (la, lb, ell), f"large|{la}*{lb}")
+            if report("homomorphism", ell, float(np.max(np.abs(BD[la][ell] @ BD[lb][ell] - C[ell]))), {"R1": list(Ra), "R2": list(Rb), "ell_max": LB}, f"{la}*{lb}"):
                 break
     run.notes["worst_over_(ell+1)eps"] = {k: round(v, 4) for k, v in worst.items()}
     run.assumptions += ["homomorphism / unitarity are not proved (they need the identification of the recursion with the documented polynomial): oracle sweep only",
